@@ -21,7 +21,7 @@ func (world) Rule(string) string {
 		"(4) single-bit flips of the file: every bit of every byte in the thorough tier, 64 tape-sampled (byte,bit) positions in the quick tier; " +
 		"(5) the raw ciphertext handed to DecryptPrivateKey and Decrypt truncated to EVERY shorter length, extended by 1..16 bytes, and with single-bit flips (all bits thorough / 64 sampled quick); " +
 		"(6) the Type field rewritten to the other schemes (counted only). Every call is made under recover(). " +
-		"Every run is non-trivial (each applies several hundred faults); distinct = distinct (scheme, password, outcome histogram) fingerprint."
+		"Every run is non-trivial (each applies several hundred faults); distinct = distinct (scheme, password, outcome histogram) fingerprint. After every section, and while a second key file of each scheme is written and read (7), every key handed out earlier is compared with the original again: a caller holds several keys at once."
 }
 func (world) Components(string) ([]string, []string) {
 	return []string{"lib/keystore: EncryptAndWriteToFile, ReadFromFileAndDecrypt, EncryptPrivateKey, DecryptPrivateKey, Encrypt, Decrypt, DecodePrivateKey", "lib/crypto/{sr25519,ed25519,secp256k1} private key encode/decode", "encoding/json, os file I/O on a real scratch directory"},
